@@ -1423,14 +1423,30 @@ func c12NumericKeywordsRead(ctx *Ctx, r *Report) {
 		if !ok {
 			continue
 		}
+		// a keyword is read when its value goes somewhere — the receiver of a method, an argument, the right-hand side
+		// of an assignment, a dereference: a comparison with nil only says whether it is there (the test that refuses
+		// the bounds written next to `$ref` compares every one of them with nil)
 		read := map[*types.Var]bool{}
 		for _, f := range p.Syntax {
+			var stack []ast.Node
 			ast.Inspect(f, func(m ast.Node) bool {
+				if m == nil {
+					stack = stack[:len(stack)-1]
+					return true
+				}
 				if sel, ok := m.(*ast.SelectorExpr); ok {
-					if v := fieldOf(p.TypesInfo, sel); v != nil {
-						read[v] = true
+					if v := fieldOf(p.TypesInfo, sel); v != nil && len(stack) > 0 {
+						parent := stack[len(stack)-1]
+						if pe, ok := parent.(*ast.ParenExpr); ok && len(stack) > 1 {
+							_ = pe
+							parent = stack[len(stack)-2]
+						}
+						if be, ok := parent.(*ast.BinaryExpr); !ok || !(isNilIdent(p.TypesInfo, be.X) || isNilIdent(p.TypesInfo, be.Y)) {
+							read[v] = true
+						}
 					}
 				}
+				stack = append(stack, m)
 				return true
 			})
 		}
